@@ -383,6 +383,18 @@ impl<'s> Scheduler<'s> {
                 break;
             }
             if let Some(item) = self.syscall_suspend.pop() {
+                // the entry may be left over from an earlier wait of this coroutine that ended
+                // with a callback: only the deadline of the wait it is in now counts
+                let due = self.syscall.get(&item.co_id).is_some_and(|co| {
+                    matches!(
+                        co.state(),
+                        CoroutineState::Syscall((), _, SyscallState::Suspend(timestamp))
+                            if timestamp <= now()
+                    )
+                });
+                if !due {
+                    continue;
+                }
                 if let Some((_, co)) = self.syscall.remove(&item.co_id) {
                     match co.state() {
                         CoroutineState::Syscall(val, syscall, SyscallState::Suspend(_)) => {
